@@ -890,9 +890,18 @@ func (a *cbAnalysis) run(body *ast.BlockStmt, argsObj types.Object, extraEntry [
 	sort.Slice(extra, func(i, j int) bool { return extra[i].Subj+extra[i].Pred < extra[j].Subj+extra[j].Pred })
 	_ = extra
 	focusRuns := map[string]*WorldResult{}
-	worldsFor := func(subj string) *WorldResult {
-		if r, ok := focusRuns[subj]; ok {
+	worldsFor := func(subj string, bit string) *WorldResult {
+		if r, ok := focusRuns[subj+"|"+bit]; ok {
 			return r
+		}
+		var dims []string
+		switch bit {
+		case "known":
+			dims = []string{"K", "WK"}
+		case "notnull":
+			dims = []string{"N", "K"}
+		case "unmarked":
+			dims = []string{"M", "DM"}
 		}
 		// the subject, everything it was copied from, and the containers of all of those
 		seen := map[string]bool{}
@@ -915,8 +924,8 @@ func (a *cbAnalysis) run(body *ast.BlockStmt, argsObj types.Object, extraEntry [
 			}
 		}
 		add(subj)
-		r := fcfg.WorldsFocused(spec, ex, entry, focus)
-		focusRuns[subj] = r
+		r := fcfg.WorldsFocusedDims(spec, ex, entry, focus, dims)
+		focusRuns[subj+"|"+bit] = r
 		return r
 	}
 
@@ -940,13 +949,13 @@ func (a *cbAnalysis) run(body *ast.BlockStmt, argsObj types.Object, extraEntry [
 		if sk == "" || !isRooted {
 			return true
 		}
-		wr := worldsFor(sk)
 		_, isElem := elemLinks[sk]
 		acc := strings.TrimPrefix(fk, "cty.Value.")
 		check := func(bit string, need bool, goodFact, badFact Fact) {
 			if !need {
 				return
 			}
+			wr := worldsFor(sk, bit)
 			construct := fmt.Sprintf("%s.%s/%s(%s)/%s", a.spec.Pkg, where, acc, displaySubj(sk), bit)
 			if a.c.IsControl(call.Pos()) {
 				construct = "control/" + construct
@@ -997,10 +1006,10 @@ func (a *cbAnalysis) run(body *ast.BlockStmt, argsObj types.Object, extraEntry [
 					if ko != nil && vo != nil {
 						var en []Fact
 						en = append(en, Fact{"known", objKey(ko)}, Fact{"notnull", objKey(ko)}, Fact{"unmarked", objKey(ko)})
-						if h, _ := wr.Established(call, Fact{"whollyknown", sk}); h {
+						if h, _ := worldsFor(sk, "known").Established(call, Fact{"whollyknown", sk}); h {
 							en = append(en, Fact{"known", objKey(vo)}, Fact{"whollyknown", objKey(vo)})
 						}
-						if h, _ := wr.Established(call, Fact{"deepunmarked", sk}); h {
+						if h, _ := worldsFor(sk, "unmarked").Established(call, Fact{"deepunmarked", sk}); h {
 							en = append(en, Fact{"unmarked", objKey(vo)}, Fact{"deepunmarked", objKey(vo)})
 						}
 						a.run(fl.Body, nil, en, map[string]string{objKey(vo): "element of " + desc}, where)
